@@ -1010,6 +1010,7 @@ func (u *Unit) execForLoop(n *ast.ForStmt, orig *ast.ForStmt, st *State, f Flow)
 	he := u.newEv(head)
 	u.havocLoop(he, n)
 	u.assumeInvariants(lb, head, pos)
+	u.assumeLoopFrame(head)
 	var dec0 []Term
 	for _, c := range lb.clauses("decreases") {
 		de := u.specEv(head, pos)
@@ -1024,6 +1025,7 @@ func (u *Unit) execForLoop(n *ast.ForStmt, orig *ast.ForStmt, st *State, f Flow)
 	endIter := func(s *State) {
 		after := func(s2 *State) {
 			u.checkInvariants(lb, s2, pos, "preserve", head)
+			u.checkLoopFrame(lb, s2)
 			for i, c := range lb.clauses("decreases") {
 				de := u.specEv(s2, pos)
 				d1 := de.evSpec(c.Text)
@@ -1095,11 +1097,13 @@ func (u *Unit) execRange(n *ast.RangeStmt, st *State, f Flow) {
 		head.assume(app("<=", "0", idx))
 		head.assume(app("<=", idx, app("slen", x.S)))
 		u.assumeInvariants(lb, head, pos)
+		u.assumeLoopFrame(head)
 		body := u.fork(head, app("<", idx, app("slen", x.S)))
 		setKV(body, idx)
 		endIter := func(s *State) {
 			s.named[idxName] = Term{S: app("+", idx, "1"), Sort: sInt, T: types.Typ[types.Int], Signed: true}
 			u.checkInvariants(lb, s, pos, "preserve", head)
+			u.checkLoopFrame(lb, s)
 		}
 		bf := Flow{next: endIter, cont: endIter, brk: f.next, ret: f.ret}
 		u.exec(n.Body, body, bf)
@@ -1297,4 +1301,26 @@ func (g *Gen) specTypeOf(expr string, pos token.Pos) types.Type {
 		return nil
 	}
 	return rec(x)
+}
+
+// Implicit loop invariant: the unit's frame (objects outside its modifies clause unchanged since
+// entry) holds at every loop head; it is assumed after the havoc and re-checked after the body.
+func (u *Unit) assumeLoopFrame(st *State) {
+	if !u.hasFrame() || u.entry == nil {
+		return
+	}
+	for _, f := range u.frameFormula(u.block, st, u.entry, u.bodyPos) {
+		st.assume(f)
+	}
+}
+
+func (u *Unit) checkLoopFrame(lb *Block, st *State) {
+	if !u.hasFrame() || u.entry == nil {
+		return
+	}
+	fs := u.frameFormula(u.block, st, u.entry, u.bodyPos)
+	if len(fs) == 0 {
+		return
+	}
+	u.addObl(u.loopOblName(lb, "preserve#frame"), u.props, st, smtAnd(fs...), "implicit invariant: objects outside the modifies clause unchanged", nil)
 }
